@@ -228,3 +228,51 @@ def _table_two_ops(in0, g0, l0, same_u, op1, i1, j1, a1, v1, op2, i2, j2, a2, v2
     except Exception as ex:  # noqa: BLE001
         return exc_result(orc, ex)
     return orc.result()
+
+
+def table_three_ops(in0: bool, g0: int, l0: int, same_u: bool,
+                    op1: int, i1: int, j1: int, a1: int, v1: int, op2: int, i2: int, j2: int, a2: int, v2: int,
+                    op3: int, i3: int, j3: int, a3: int, v3: int) -> str:
+    """
+    Three consecutive arbitrary operations, checked after each (thorough tier; case split over op1).
+    pre: 0 <= g0 < 3
+    pre: 0 <= l0 < 5
+    pre: 0 <= op1 < 6
+    pre: 0 <= i1 < 3
+    pre: 0 <= j1 < 3
+    pre: 0 <= a1 < 3
+    pre: 0 <= v1 < 5
+    pre: 0 <= op2 < 6
+    pre: 0 <= i2 < 3
+    pre: 0 <= j2 < 3
+    pre: 0 <= a2 < 3
+    pre: 0 <= v2 < 5
+    pre: 0 <= op3 < 6
+    pre: 0 <= i3 < 3
+    pre: 0 <= j3 < 3
+    pre: 0 <= a3 < 3
+    pre: 0 <= v3 < 5
+    post: __return__ == 'ok'
+    """
+    R3, R5, R6 = (0, 1, 2), (0, 1, 2, 3, 4), (0, 1, 2, 3, 4, 5)
+    in0, same_u = bool(in0), bool(same_u)
+    g0, l0 = pick(g0, R3), pick(l0, R5)
+    steps = []
+    for op, i, j, a, v in ((op1, i1, j1, a1, v1), (op2, i2, j2, a2, v2), (op3, i3, j3, a3, v3)):
+        op = pick(op, R6)
+        steps.append((op, pick(i, R3) if op != 4 else 0, pick(j, R3) if op in (3, 5) else 0,
+                      pick(a, R3) if op == 1 else 0, pick(v, R5) if op == 1 else 0))
+    with untraced():
+        orc = Oracle()
+        objs = _mk_objs(g0, l0, same_u)
+        t = mk_table()
+        try:
+            t.add_object(objs[1])
+            if in0:
+                t.add_object(objs[0])
+            for n, (op, i, j, a, v) in enumerate(steps, 1):
+                apply_op(t, objs, op, i, j, a, v, orc, f'op{n}')
+                _consistent(t, orc, f'after{n}')
+        except Exception as ex:  # noqa: BLE001
+            return exc_result(orc, ex)
+        return orc.result()
